@@ -136,14 +136,14 @@ func runC11(c *Ctx) {
 		Instrs(fn, func(in ssa.Instruction) {
 			// captured by a closure: the variable lives in an alloc
 			if st, ok := in.(*ssa.Store); ok {
-				if al, isA := st.Addr.(*ssa.Alloc); isA && al.Comment == "isProducer" {
+				if al, isA := st.Addr.(*ssa.Alloc); isA && u.VarName(al) == "isProducer" {
 					if k, isC := st.Val.(*ssa.Const); isC && k.Value != nil && k.Value.String() == "false" && len(u.GuardStrings(in)) == 0 {
 						return // zero initialisation
 					}
 					edges = append(edges, classify(st.Val, strings.Join(u.GuardStrings(in), " && ")))
 				}
 			}
-			if p, ok := in.(*ssa.Phi); ok && p.Comment == "isProducer" {
+			if p, ok := in.(*ssa.Phi); ok && u.VarName(p) == "isProducer" {
 				for i, e := range p.Edges {
 					pred := p.Block().Preds[i]
 					g := ""
